@@ -31,6 +31,7 @@ RULE = ('reference-encoded bpch images with 1-4 time blocks, 1-3 diagnostic '
         'non-trivial = >= 2 data blocks; distinct = digest of the spec.')
 RULE += (' The grid header (halfpolar and center180 drawn independently, model name, resolution) both readers state is compared with the file, and the latitude/longitude cells both derive from it with each other.')
 RULE += (' Law 5c (every second file): the file read with and without scaling is saved as netCDF, opened as a plain netCDF file and written as bpch again; the independent decoder must find the original raw values.')
+RULE += (' One multi-step file in nine has time blocks that start together and end apart (same tau0, different tau1), each a time block of its own for both readers.')
 ASSUMPTIONS = [
     'the reference codec follows the GEOS-Chem/GAMAP "CTM bin 02" '
     'description; shared misreadings of that description are out of reach',
